@@ -89,10 +89,15 @@ def run(ctx: Ctx) -> None:
     ctx.floor('C07.R2', 5)
 
     o = B.methods['optimize']
-    calls = [c for c in walk_no_nested(o.node) if isinstance(c, ast.Call) and unparse(c.func) == 'the_algorithm']
+    from ..pattern import find, has
+
+    bo = find(o.node, '_ALG = opt.algorithms.get(_NAME)')
+    ctx.need(bo is not None, 'optimize looks the algorithm up in opt.algorithms')
+    calls = [c for c in walk_no_nested(o.node) if isinstance(c, ast.Call) and unparse(c.func) == bo['_ALG']]
     ctx.need(len(calls) == 1, 'optimize calls the selected algorithm once')
     kws = {k.arg: unparse(k.value) for k in calls[0].keywords}
-    ok = kws.get('bounds') == 'self.id_manager.bounds' and kws.get('init_betas') == 'starting_values' and kws.get('fct') == 'the_function'
+    nlv = [unparse(n.targets[0]) for n in walk_no_nested(o.node) if isinstance(n, ast.Assign) and isinstance(n.value, ast.Call) and call_name(n.value) == 'NegativeLikelihood']
+    ok = kws.get('bounds') == 'self.id_manager.bounds' and kws.get('init_betas') == 'starting_values' and nlv == [kws.get('fct')]
     ctx.add('C07.R3', 'BIOGEME.optimize:bounds', ok, (o.file, calls[0].lineno), 'the algorithm receives id_manager.bounds and the starting values' if ok else f'algorithm called with {kws}', str(sorted(kws.items())))
     nl = [c for c in walk_no_nested(o.node) if isinstance(c, ast.Call) and call_name(c) == 'NegativeLikelihood']
     kk = {k.arg: unparse(k.value) for k in nl[0].keywords} if nl else {}
@@ -159,8 +164,7 @@ def run(ctx: Ctx) -> None:
     txt = unparse(ca.node)
     ok = "['automatic'] + list(opt.algorithms.keys())" in txt
     ctx.add('C07.R6', 'check_algo_name', ok, ca, 'accepted names = automatic + keys of optimization.algorithms' if ok else 'accepted algorithm names are no longer derived from optimization.algorithms', 'names')
-    txt = unparse(o.node)
-    ok = 'opt.algorithms.get(algorithm_name)' in txt and "'simple_bounds' if self.optimization_algorithm == 'automatic' else self.optimization_algorithm" in txt
+    ok = has(o.node, "_NAME = 'simple_bounds' if self.optimization_algorithm == 'automatic' else self.optimization_algorithm\n_ALG = opt.algorithms.get(_NAME)")
     ctx.add('C07.R6', 'BIOGEME.optimize:lookup', ok, o, 'optimize looks the name up in the same table (automatic -> simple_bounds)' if ok else 'algorithm lookup changed', 'lookup')
 
 
@@ -182,7 +186,7 @@ MUTANTS = [
     dict(name='simple_bounds wrapper builds empty bounds', rule='C07.R3', file=_O, old='        bounds=Bounds(bounds),', new='        bounds=Bounds([(None, None) for _ in bounds]),'),
     dict(name='bounds follow the order of appearance (seed C07/1)', rule='C07.R3', file='src/biogeme/expressions/idmanager.py',
          old='            for b in self.free_betas.names\n        ]', new='            for b in self.free_betas.expressions\n        ]'),
-    dict(name='estimates written back only to the log likelihood', rule='C07.R4', file=_B,
+    dict(name='estimates written back only to the log likelihood', rule='C07.R4', file=_B, replace_all=True,
          old='        for f in self.formulas.values():\n            f.change_init_values(estimated_betas)', new='        self.log_like.change_init_values(estimated_betas)'),
     dict(name='zero estimates are not written back (seed C07/2)', rule='C07.R4', file='src/biogeme/expressions/beta_parameters.py',
          old='        if value is not None and value != self.initValue:', new='        if value and value != self.initValue:'),
@@ -193,6 +197,6 @@ MUTANTS = [
          old="    possibilities = ['automatic'] + list(opt.algorithms.keys())", new="    possibilities = ['automatic', 'scipy', 'simple_bounds', 'TR-newton']"),
 ]
 NEUTRAL = [
-    dict(name='write-back loop variable renamed', file=_B,
+    dict(name='write-back loop variable renamed', file=_B, replace_all=True,
          old='        for f in self.formulas.values():\n            f.change_init_values(estimated_betas)', new='        for formula in self.formulas.values():\n            formula.change_init_values(r.get_beta_values())'),
 ]
